@@ -1103,16 +1103,20 @@ class DistNormalTrunc(DistContinuous):
                 return self._lo
             else:
                 return self._hi
+        # The approximation of the inverse error function has a relative 
+        # error of about 5E-8, so d can be off by a fraction of 1E-6 * sigma.
+        # The tolerance cannot be relative to the bound only: the bound can
+        # be 0.0 (e.g., a normal distribution truncated to positive values).
         if d < self._lo:
             # rounding error?
-            if abs(d - self._lo) < 1E-6 * abs(self._lo):
+            if abs(d - self._lo) < 1E-6 * max(abs(self._lo), self._sigma):
                 return self._lo
             else:
                 raise ValueError(f"drawn value {d} outside of interval "\
                     f"[min, max] = [{self._lo}, {self._hi}]") 
         if d > self._hi:
             # rounding error?
-            if abs(d - self._hi) < 1E-6 * abs(self._hi):
+            if abs(d - self._hi) < 1E-6 * max(abs(self._hi), self._sigma):
                 return self._hi
             else:
                 raise ValueError(f"drawn value {d} outside of interval "\
